@@ -1,25 +1,406 @@
-"""Per-property rule sets (DESIGN section 5)."""
+"""Per-property rule sets (DESIGN section 5).  Each property function receives a Ctx and applies the rules that decide
+its structural clauses; floors are the instance counts confirmed on the pinned tree."""
 from .model import model
-from .rules import sig, fwd, misc, kern, kern2d, iterspace, cshape
+from .rules import sig, fwd, misc, kern, kern2d, iterspace, cshape, pyshape, tables
 
-ALL_PY = ['dtaidistance.dtw', 'dtaidistance.dtw_ndim', 'dtaidistance.ed', 'dtaidistance.dtw_barycenter',
-          'dtaidistance.subsequence.subsequencealignment', 'dtaidistance.subsequence.subsequencesearch',
-          'dtaidistance.subsequence.localconcurrences', 'dtaidistance.clustering.kmeans',
-          'dtaidistance.clustering.hierarchical', 'dtaidistance.clustering.medoids', 'dtaidistance.util']
+CORE_PY = ['dtaidistance.dtw', 'dtaidistance.dtw_ndim', 'dtaidistance.ed', 'dtaidistance.dtw_barycenter']
+SUBSEQ = ['dtaidistance.subsequence.subsequencealignment', 'dtaidistance.subsequence.subsequencesearch',
+          'dtaidistance.subsequence.localconcurrences']
+CLUST = ['dtaidistance.clustering.kmeans', 'dtaidistance.clustering.hierarchical', 'dtaidistance.clustering.medoids']
+ALL_PY = CORE_PY + SUBSEQ + CLUST + ['dtaidistance.util']
+EXTRA_PY = ['dtaidistance.dp', 'dtaidistance.alignment', 'dtaidistance.similarity', 'dtaidistance.innerdistance']
+NUMPY_OPT = ['dtaidistance.dtw', 'dtaidistance.innerdistance', 'dtaidistance.ed', 'dtaidistance.dtw_barycenter'] + SUBSEQ
 
 
-def _tmp(ctx):
+def has(*subs):
+    return lambda rule, text: any(s in text for s in subs)
+
+
+def _kernels(ctx, m):
+    ks = getattr(ctx, '_kernels', None)
+    if ks is None:
+        ks = kern.load_kernels(m)
+        for F in ks:
+            # recurrence facts feed the other kernel rules
+            pass
+        ctx._kernels = ks
+    return ks
+
+
+def _py_distance_rules(ctx, m, F, rules):
+    if 'band' in rules:
+        kern.rule_band(ctx, F)
+    kern_rec_needed = {'rec', 'psi', 'clamp', 'dom'} & set(rules)
+    if kern_rec_needed:
+        if 'rec' in rules:
+            kern.rule_recurrence(ctx, F)
+        else:
+            with ctx.scoped(lambda r, t: False):
+                kern.rule_recurrence(ctx, F)
+    if 'prune' in rules:
+        kern.rule_prune(ctx, F)
+    if 'psi' in rules:
+        kern.rule_psi(ctx, F)
+    if 'clamp' in rules:
+        if 'psi' not in rules:
+            with ctx.scoped(lambda r, t: False):
+                kern.rule_psi(ctx, F)
+        kern.rule_clamp(ctx, F)
+    if 'dom' in rules:
+        if 'prune' not in rules:
+            with ctx.scoped(lambda r, t: False):
+                kern.rule_prune(ctx, F)
+        if F.lang == 'c':
+            kern.rule_dom_c(ctx, F)
+        else:
+            kern.rule_dom_py(ctx, m, F)
+
+
+def _wp(ctx, m, kir, rules):
+    F = kern2d.load(m, 'dtaidistance.dtw', 'warping_paths', consts={'keep_int_repr': ('bool', kir)})
+    if 'band' in rules:
+        kern.rule_band(ctx, F)
+    if 'rec' in rules:
+        kern2d.rule_rec_dtw2d(ctx, F)
+    else:
+        with ctx.scoped(lambda r, t: False):
+            kern2d.rule_rec_dtw2d(ctx, F)
+    if 'prune' in rules:
+        kern.rule_prune(ctx, F)
+    else:
+        with ctx.scoped(lambda r, t: False):
+            kern.rule_prune(ctx, F)
+    if 'psi' in rules:
+        kern2d.rule_psi2d(ctx, F)
+    if 'dom' in rules:
+        kern2d.rule_dom_py2d(ctx, m, F, kir)
+    return F
+
+
+# ------------------------------------------------------------------------------------------------------------------
+def C01(ctx):
     m = model(ctx.repo)
-    cshape.rule_shadow(ctx, m)
-    cshape.rule_scan_init(ctx, m)
+    F = _kernels(ctx, m)[0]
+    _py_distance_rules(ctx, m, F, ['band', 'rec', 'prune', 'psi', 'clamp', 'dom'])
+    tables.rule_settings_defaults(ctx, m)
+    misc.rule_dispatch(ctx, m, 'dtaidistance.innerdistance', 'inner_dist_cls', 'inner_dist', documented=[])
+    tables.rule_inner_dist_table(ctx, m)
+    misc.rule_optional_numpy(ctx, m, ['dtaidistance.dtw', 'dtaidistance.innerdistance', 'dtaidistance.ed'])
+    # second Python copy of the scheme as sibling
+    _wp(ctx, m, True, ['band', 'rec'])
+    ctx.floor('R-BAND', 5, 'lower/upper/rows of distance + warping_paths')
+    ctx.floor('R-REC', 8, 'predecessors, penalty, offset, length, reset, guard')
+    ctx.floor('R-PSI', 4, 'four psi roles')
+    ctx.count('kernels', 2)
+
+
+def C02(ctx):
+    m = model(ctx.repo)
+    ks = _kernels(ctx, m)
+    for F in ks:
+        if F.lang == 'c':
+            _py_distance_rules(ctx, m, F, ['band', 'rec', 'prune', 'psi', 'dom'])
+        else:
+            with ctx.scoped(lambda r, t: False):
+                _py_distance_rules(ctx, m, F, ['rec'])
+    ctx.count('kernels', len(ks))
+    sig.rule_pxd_vs_header(ctx, m)
+    with ctx.scoped(has('distance', 'ub_euclidean', 'lb_keogh', 'DTWSettings', 'distances', 'euclidean')):
+        sig.rule_pyx_to_c(ctx, m)
+        sig.rule_c_to_c(ctx, m)
+    fwd.rule_key_tables(ctx, m)
+    tables.rule_inner_dist_table(ctx, m)
+    tables.rule_none_zero_encoding(ctx, m)
+    with ctx.scoped(has('dtw:distance ', 'dtw:distance_fast', 'dtw_ndim:distance', 'dtw:distance_matrix', 'dtw_ndim:distance_matrix', ':distance:', ':distance_fast:')):
+        fwd.rule_delegation(ctx, m, ['dtaidistance.dtw', 'dtaidistance.dtw_ndim'])
+    tables.rule_pyx_siblings(ctx, m)
     cshape.rule_variant_callees(ctx, m)
-    cshape.rule_c_no_input_stores(ctx, m)
+    ctx.floor('R-BAND', 20, '4 C kernels x (lo, hi) x 2 window encodings + rows')
+    ctx.floor('R-REC', 32, '4 C kernels x 8 facts')
+    ctx.floor('R-SIG', 100, '52 externs + call sites')
+
+
+def C03(ctx):
+    m = model(ctx.repo)
+    for F in _kernels(ctx, m):
+        _py_distance_rules(ctx, m, F, ['prune', 'dom'])
+    for kir in (True, False):
+        _wp(ctx, m, kir, ['prune', 'dom'])
+    cshape.rule_variant_callees(ctx, m)
+    with ctx.scoped(has('ndim sink', 'inner_dist_fns', 'ed.distance', 'ub_euclidean')):
+        fwd.rule_use_ndim(ctx, m, CORE_PY)
+    tables.rule_settings_defaults(ctx, m)
+    with ctx.scoped(has('align')):
+        pass
+    ctx.floor('R-PRUNE', 50, '5 rolling kernels + 2 warping_paths modes')
+
+
+def C04(ctx):
+    m = model(ctx.repo)
+    _wp(ctx, m, True, ['band', 'rec', 'prune', 'psi', 'dom'])
+    _wp(ctx, m, False, ['rec', 'dom'])
+    misc.rule_return_arity(ctx, m, [('dtaidistance.dtw', 'warping_paths'), ('dtaidistance.dtw', 'warping_paths_fast')])
+    with ctx.scoped(has('warping_paths')):
+        fwd.rule_delegation(ctx, m, ['dtaidistance.dtw', 'dtaidistance.dtw_ndim'])
+        sig.rule_pyx_to_c(ctx, m)
+        sig.rule_c_to_c(ctx, m)
+        sig.rule_py_to_pyx(ctx, m, CORE_PY)
+        sig.rule_pxd_vs_header(ctx, m)
+    from .rules import wps
+    wps.rule_wps_writers(ctx, m, affinity=False, tier=ctx.tier)
+    wps.rule_pyx_direct_matrix(ctx, m)
+    if ctx.tier == 'thorough':
+        wps.rule_wps_readers(ctx, m, affinity=False)
+    ctx.floor('R-REC', 6, 'python matrix facts')
+
+
+def C05(ctx):
+    m = model(ctx.repo)
+    fwd.rule_best_path_penalty(ctx, m, CORE_PY + SUBSEQ)
+    fwd.rule_key_tables(ctx, m)
+    cshape.rule_alloc_pyx(ctx, m)
+    with ctx.scoped(has('index array', 'best_path', 'warping_path')):
+        cshape.rule_alloc_c(ctx, m)
+    from .rules import wps
+    wps.rule_best_path_py(ctx, m)
+    wps.rule_best_path_c(ctx, m, tier=ctx.tier)
+    with ctx.scoped(has('warping_path', 'best_path')):
+        sig.rule_pyx_to_c(ctx, m)
+        sig.rule_c_to_c(ctx, m)
+        fwd.rule_delegation(ctx, m, ['dtaidistance.dtw', 'dtaidistance.dtw_ndim'])
+
+
+def C06(ctx):
+    m = model(ctx.repo)
+    iterspace.rule_iter_python(ctx, m)
+    iterspace.rule_iter_c_serial(ctx, m)
+    iterspace.rule_iter_pyx(ctx, m)
+    tables.rule_matrix_conversion(ctx, m)
+    tables.rule_pyx_siblings(ctx, m)
+    with ctx.scoped(has('distance_matrix', 'distances')):
+        fwd.rule_delegation(ctx, m, ['dtaidistance.dtw', 'dtaidistance.dtw_ndim'])
+        sig.rule_pyx_to_c(ctx, m)
+    ctx.floor('R-ITER', 80, '2 Python + 6 C serial enumerators + lengths + pyx decoders')
+
+
+def C07(ctx):
+    m = model(ctx.repo)
+    iterspace.rule_omp(ctx, m)
     cshape.rule_c_reentrant(ctx, m)
+    iterspace.rule_mp_order(ctx, m)
+    with ctx.scoped(has('parallel')):
+        sig.rule_pyx_to_c(ctx, m)
+        sig.rule_pxd_vs_header(ctx, m)
+    ctx.floor('R-OMP', 60, '6 regions + planner')
+    ctx.floor('R-EFF', 8, 'functions reachable from regions')
+
+
+def C08(ctx):
+    m = model(ctx.repo)
     cshape.rule_alloc_c(ctx, m)
     cshape.rule_alloc_pyx(ctx, m)
-    cshape.rule_ndim_stride(ctx, m, ['euclidean_distance_ndim', 'euclidean_distance_ndim_euclidean', 'dtw_distance_ndim', 'dtw_distance_ndim_euclidean',
-                                     'dtw_warping_paths_ndim', 'dtw_warping_paths_ndim_euclidean', 'dtw_warping_paths_affinity_ndim'])
+    cshape.rule_shadow(ctx, m)
+    cshape.rule_ndim_stride(ctx, m, NDIM_FUNCS)
+    for F in _kernels(ctx, m):
+        if F.lang == 'c':
+            _py_distance_rules(ctx, m, F, ['clamp'])
+    tables.rule_psi_asserts(ctx, m)
+    from .rules import wps
+    wps.rule_wps_bounds(ctx, m, tier=ctx.tier)
+    ctx.floor('R-ALLOC', 20, 'C + pyx allocation sites')
+    ctx.floor('R-STRIDE', 60, 'n-D subscripts')
+
+
+NDIM_FUNCS = ['euclidean_distance_ndim', 'euclidean_distance_ndim_euclidean', 'dtw_distance_ndim', 'dtw_distance_ndim_euclidean',
+              'dtw_warping_paths_ndim', 'dtw_warping_paths_ndim_euclidean', 'dtw_warping_paths_affinity_ndim',
+              'dtw_warping_paths_affinity_ndim_euclidean']
+
+
+def C09(ctx):
+    m = model(ctx.repo)
+    from .rules import bounds
+    bounds.rule_lb_keogh(ctx, m)
+    bounds.rule_euclidean(ctx, m)
+    cshape.rule_scan_init(ctx, m, only=['lb_keogh', 'lb_keogh_euclidean'])
+    cshape.rule_shadow(ctx, m, only=['euclidean_distance', 'euclidean_distance_euclidean', 'euclidean_distance_ndim', 'euclidean_distance_ndim_euclidean'])
+    cshape.rule_ndim_stride(ctx, m, ['euclidean_distance_ndim', 'euclidean_distance_ndim_euclidean'])
+    ks = _kernels(ctx, m)
+    with ctx.scoped(has('only_ub')):
+        for F in ks:
+            _py_distance_rules(ctx, m, F, ['dom'])
+    with ctx.scoped(has('only_ub', 'ub_euclidean', 'lb_keogh')):
+        fwd.rule_delegation(ctx, m, ['dtaidistance.dtw', 'dtaidistance.dtw_ndim'])
+    cshape.rule_variant_callees(ctx, m)
+    with ctx.scoped(has('lb_keogh', 'ub_euclidean', 'euclidean_distance')):
+        sig.rule_pyx_to_c(ctx, m)
+        sig.rule_pxd_vs_header(ctx, m)
+
+
+def C10(ctx):
+    m = model(ctx.repo)
+    for F in _kernels(ctx, m):
+        _py_distance_rules(ctx, m, F, ['band'])
+        with ctx.scoped(has('penalty symmetric', 'DP predecessors', 'max_step guard')):
+            kern.rule_recurrence(ctx, F)
+        with ctx.scoped(has('psi')):
+            kern.rule_psi(ctx, F)
+    from .rules import bounds
+    bounds.rule_band_laws(ctx)
+    bounds.rule_point_distance(ctx, m, _kernels(ctx, m))
+    tables.rule_matrix_conversion(ctx, m)
+    tables.rule_settings_defaults(ctx, m)
+    ctx.floor('R-BAND', 25, '5 kernels + laws')
+
+
+def C11(ctx):
+    m = model(ctx.repo)
+    cshape.rule_ndim_stride(ctx, m, NDIM_FUNCS)
+    fwd.rule_use_ndim(ctx, m, CORE_PY + SUBSEQ)
+    with ctx.scoped(has('dtw_ndim')):
+        fwd.rule_delegation(ctx, m, ['dtaidistance.dtw_ndim'])
+    fwd.rule_unused_params(ctx, m, [('dtaidistance.dtw_ndim', q) for q in
+                                    ('distance', 'distance_fast', 'distance_matrix', 'ub_euclidean')])
+    with ctx.scoped(has('_ndim', 'ndim')):
+        sig.rule_py_to_pyx(ctx, m, ALL_PY)
+        sig.rule_pyx_to_c(ctx, m)
+        sig.rule_c_to_c(ctx, m)
+        cshape.rule_shadow(ctx, m)
+    from .rules import bounds
+    bounds.rule_ndim_siblings(ctx, m)
+    tables.rule_inner_dist_table(ctx, m)
+    pyshape.rule_series_container(ctx, m)
+    ctx.floor('R-STRIDE', 60, 'n-D subscripts')
+
+
+def C12(ctx):
+    m = model(ctx.repo)
+    pyshape.rule_dba_py(ctx, m)
     cshape.rule_dba_c(ctx, m)
+    misc.rule_identity(ctx, m, ['dtaidistance.dtw_barycenter'])
+    with ctx.scoped(has('dba')):
+        cshape.rule_alloc_c(ctx, m)
+        sig.rule_pyx_to_c(ctx, m)
+        sig.rule_py_to_pyx(ctx, m, ['dtaidistance.dtw_barycenter'])
+        cshape.rule_c_no_input_stores(ctx, m)
+    ctx.floor('R-PATH', 12, 'C + Python DBA path rules')
 
 
-PROPS = {'T00': (_tmp, 'scratch')}
+def C13(ctx):
+    m = model(ctx.repo)
+    pyshape.rule_subseq_align(ctx, m)
+    with ctx.scoped(has('subsequencealignment')):
+        sig.rule_imports(ctx, m, ['dtaidistance.subsequence.subsequencealignment'])
+        sig.rule_py_to_pyx(ctx, m, ['dtaidistance.subsequence.subsequencealignment'])
+        fwd.rule_delegation(ctx, m, ['dtaidistance.subsequence.subsequencealignment'])
+        fwd.rule_best_path_penalty(ctx, m, ['dtaidistance.subsequence.subsequencealignment'])
+    from .rules import wps
+    wps.rule_best_path_py(ctx, m)
+
+
+def C14(ctx):
+    m = model(ctx.repo)
+    pyshape.rule_subseq_search(ctx, m)
+    with ctx.scoped(has('subsequencesearch')):
+        fwd.rule_delegation(ctx, m, ['dtaidistance.subsequence.subsequencesearch'])
+        sig.rule_imports(ctx, m, ['dtaidistance.subsequence.subsequencesearch'])
+    ctx.floor('R-PATH', 8, 'search loop rules')
+
+
+def C15(ctx):
+    m = model(ctx.repo)
+    pyshape.rule_hierarchical(ctx, m)
+    ctx.floor('R-PATH', 10, 'merge loop + tree hook')
+
+
+def C16(ctx):
+    m = model(ctx.repo)
+    pyshape.rule_kmeans(ctx, m)
+    misc.rule_identity(ctx, m, ['dtaidistance.clustering.kmeans', 'dtaidistance.clustering.medoids'])
+    with ctx.scoped(has('kmeans')):
+        sig.rule_py_to_pyx(ctx, m, ['dtaidistance.clustering.kmeans'])
+    ctx.floor('R-PATH', 6, 'fit path rules + helpers')
+
+
+def C17(ctx):
+    m = model(ctx.repo)
+    F = kern2d.load(m, 'dtaidistance.dp', 'dp', consts={'window': ('var', 'W')}, nonnull={'W'})
+    kern.rule_band(ctx, F)
+    kern2d.rule_rec_nw(ctx, F)
+    pyshape.rule_alignment_tables(ctx, m)
+    misc.rule_return_arity(ctx, m, [('dtaidistance.dp', 'dp'), ('dtaidistance.alignment', 'needleman_wunsch')])
+    ctx.floor('R-REC', 2, 'dp scheme')
+
+
+def C18(ctx):
+    m = model(ctx.repo)
+    from .rules import wps
+    wps.rule_affinity(ctx, m, tier=ctx.tier)
+    with ctx.scoped(has('affinity', 'localconcurrences', 'wps_', 'LocalConcurrences')):
+        sig.rule_py_to_pyx(ctx, m, ['dtaidistance.dtw', 'dtaidistance.subsequence.localconcurrences'])
+        sig.rule_imports(ctx, m, ['dtaidistance.subsequence.localconcurrences'])
+        fwd.rule_delegation(ctx, m, ['dtaidistance.dtw', 'dtaidistance.subsequence.localconcurrences'])
+        sig.rule_pyx_to_c(ctx, m)
+        sig.rule_c_to_c(ctx, m)
+        cshape.rule_scan_init(ctx, m)
+    misc.rule_identity(ctx, m, ['dtaidistance.subsequence.localconcurrences'])
+    wps.rule_dual(ctx, m)
+
+
+def C19(ctx):
+    m = model(ctx.repo)
+    misc.rule_dispatch(ctx, m, 'dtaidistance.similarity', 'distance_to_similarity', 'method')
+    misc.rule_dispatch(ctx, m, 'dtaidistance.similarity', 'squash', 'method')
+    from .rules import mon
+    mon.rule_similarity(ctx, m)
+
+
+def C20(ctx):
+    m = model(ctx.repo)
+    pyshape.rule_py_no_input_stores(ctx, m, ALL_PY + EXTRA_PY)
+    cshape.rule_c_no_input_stores(ctx, m)
+    pyshape.rule_contiguity(ctx, m, ALL_PY)
+    pyshape.rule_series_container(ctx, m)
+    misc.rule_optional_numpy(ctx, m, NUMPY_OPT)
+    from .rules import purity
+    purity.rule_globals(ctx, m, ALL_PY + EXTRA_PY)
+    purity.rule_history(ctx, m)
+    ctx.floor('R-EFF', 80, 'Python + C functions with series parameters')
+    ctx.floor('R-SAN', 40, 'strided memoryview arguments')
+
+
+EXPL = {
+    'C01': 'Python dtw.distance is an instance of the documented DP scheme: band, three predecessors with penalty on the two non-diagonal ones after '
+           'inverting the rolling-buffer map, psi roles, domain conversions, strict pruning; decided symbolically for all lengths/windows/psi.',
+    'C02': 'Fact-by-fact agreement of the four C distance kernels with the documented scheme (the same oracle the Python engine is checked against), '
+           'domain typing per kernel kind, variant families, pxd/header and call-site role agreement, option encodings.',
+    'C03': 'PrunedDTW block normal form in every kernel, never pruning on equality; final over-threshold conversion strict and domain-correct; the bound '
+           'fed to max_dist belongs to the same inner distance/dimensionality; no round-tripped threshold in the final conversion.',
+    'C04': 'Python warping_paths as scheme instance (both keep_int_repr modes); compact C writer per region: predecessors after inverting the region map, '
+           'lock-step of wpsi/ci on all paths, inf fill; pyx direct-matrix decision; return arity; option forwarding.',
+    'C05': 'Back-tracking step tables are bijections onto the DP predecessors with penalties in the matrix domain; penalty reaches best_path; path arrays '
+           'sized l1+l2 and at most one write per strictly decreasing step.',
+    'C06': 'Symbolic iteration space of all pair enumerators and length functions equals the documented block semantics (values touched only through comparisons).',
+    'C07': 'Static sufficient condition for determinism of each parallel for: complete privatisation, single shared output with disjoint slots from the '
+           'prefix-sum plan, re-entrant callees; order-preserving pool primitive and pair order in the multiprocessing branches.',
+    'C08': 'Allocation/use agreement of compact buffers and index arrays, no accumulator shadowing, n-D stride form, psi-derived index ranges clamped to the '
+           'band-sized buffers (bounds obligations with concrete witnesses), compact-layout position bounds per region.',
+    'C09': 'LB_Keogh envelope range equals the DTW band in all three copies, scan accumulators initialised correctly, Euclidean distance padding element and '
+           'stride form, only_ub returns the result domain, bound variants match kernel variants.',
+    'C10': 'Band relation symmetric/monotone/window-1 corollary proved on the extracted band terms; recurrence symmetric in the two non-diagonal steps; psi '
+           'roles symmetric; point distances non-negative symmetric forms; mirroring of the triangular result.',
+    'C11': 'n-D kernels differ from 1-D siblings only in point distance and stride form; use_ndim plumbing to every sink; n-D entry points exist.',
+    'C12': 'DBA accumulation/mean pairing on every path in C and Python, mask guard and bit order, copy before in-place update, at most max_it updates, '
+           'buffer sized for the series actually aligned.',
+    'C13': 'psi encoding of subsequence DTW, identical options in the four engines, single domain conversion of the matching function, internal-domain penalty '
+           'for back-tracking, writes-only-upper-bounds in the best-first iterator.',
+    'C14': 'Candidate loop as path/typestate problem: LB only when valid, strict comparators, threshold follows the heap root, distances defined on every path, cache typestate.',
+    'C15': 'Merge loop writes only +inf into the matrix, guard dominates merges and the minimum is recomputed on every path back; blanking covers the merged '
+           'series; linkage hook appends one row per merge; SciPy condensed order.',
+    'C16': 'Final assignment post-dominates the last write of the means; partition construction; iteration counter; nearest-mean helpers as siblings; seeding blocks.',
+    'C17': 'dp.dp is a scheme instance with per-pair (substitution, indel) costs; arrow table agreement writer/reader; gap emission; negation of value and matrix together.',
+    'C18': 'Affinity recurrence normal form in Python and the C region expansions, option forwarding, entry points, identity tests, scan initialisers, negativize/positivize duality.',
+    'C19': 'Dispatch chains, monotonicity/range calculus per arm, reported-parameter completeness, documented formula agreement.',
+    'C20': 'No store through series parameters in Python or C, contiguity before raw pointers, private container storage, optional-NumPy symmetry, module state and per-object history.',
+}
+
+PROPS = {k: (globals()[k], EXPL[k]) for k in EXPL}
